@@ -58,7 +58,10 @@ class Run:
             mod = open(os.path.join(d, "go.mod")).read()
             mod = re.sub(r"=> /repo\b", "=> " + REPO, mod)
             open(os.path.join(d, "go.mod"), "w").write(mod)
-            shutil.copy(os.path.join(REPO, "go.sum"), os.path.join(d, "go.sum"))
+            for cand in (os.path.join(REPO, "go.sum"), "/repo/go.sum", os.path.join(HARNESS, "go.sum")):
+                if os.path.exists(cand):
+                    shutil.copy(cand, os.path.join(d, "go.sum"))
+                    break
         return d
 
     def go_build(self, pkg, race=False, tags="verif"):
